@@ -28,7 +28,7 @@ UNL = 1000
 CONN = ("pop_frame", "clear_expired", "conn_drop", "idle_close", "poll")
 REASON = {0: "NO_ERROR", 1: "PROTOCOL_ERROR", 2: "INTERNAL_ERROR", 3: "FLOW_CONTROL_ERROR", 5: "STREAM_CLOSED", 7: "REFUSED_STREAM",
           8: "CANCEL", 11: "ENHANCE_YOUR_CALM"}
-DEFAULT_CFGS = ["MC_Push_export.cfg", "MC_Push_export_b.cfg", "MC_Push_export_client.cfg"]
+DEFAULT_CFGS = ["MC_Push_export.cfg", "MC_Push_export_b.cfg", "MC_Push_export_client.cfg", "MC_Push_export_client_b.cfg"]
 
 
 def tlc_behaviours(num, seed, outdir, cfg):
@@ -228,6 +228,13 @@ def compare(exp, events, role):
             real = [(c, r) for (c, s, r, _) in got.get("api", []) if c == call and r != "pending"]
             if [r for _, r in real] != want:
                 drift.append(dict(step, what="%s results: code %s model %s" % (call, [r for _, r in real], want)))
+        if x["panic"] and x["p"]["why"] == "for_each_debug_assert":
+            # finding P11: Store::try_for_each panics when a callback removes two ids; whether it happens depends on the order of the id map
+            # (swap_remove), which the model does not keep: possible, not certain - both outcomes are accepted, nothing is compared afterwards
+            predicted = True
+            bad = [m for m in got.get("panic", []) if not ("store.rs" in m and "new_len" in m) and "PoisonError" not in m and "poisoned" not in m]
+            if bad: drift.append(dict(step, what="panic: %s" % bad[0]))
+            break
         if x["panic"]:
             predicted = True
             sig = {"pp_unwrap": ("prioritize.rs", "unwrap"), "queue_open_debug_assert": ("stream.rs", "!stream.is_pending_send"),
